@@ -49,7 +49,7 @@ func init() {
 		ID:   "C17",
 		Race: true,
 		Rule: "One case = one history: layout (plain file | symlink to a file in another directory | k8s AtomicWriter layout), decoder (json|yaml), 1..~14 steps over " +
-			"{in-place truncate+rewrite in 1..6 pieces, write-temp+rename-over, k8s swap (with/without removing the old dir, file or link first), symlink swap (same/new dir), " +
+			"{in-place truncate+rewrite in 1..6 pieces, in-place rewrite of the same byte length that restores the previous mtime or sets a fixed epoch mtime (cp -p / rsync --inplace -t; pwrite or O_TRUNC), write-temp+rename-over, k8s swap (with/without removing the old dir, file or link first), symlink swap (same/new dir), " +
 			"delete+recreate (in place or renamed in), identical bytes (in place and atomic), malformed or empty content, revert to the last good bytes, sync point, gate (watcher held between its read and its report/watch repair while 1-2 steps run)} " +
 			"with seeded pauses (none, yield, 20us..50ms) and a seeded delay table on the file.read hook. A history is distinct by (layout, decoder, step-kind sequence with identical/revert/malformed/piece-count/variant marks) " +
 			"and non-trivial when it has at least one content-changing step and the watcher was observed re-reading the file at least once. " +
@@ -67,10 +67,10 @@ func init() {
 		MinCounters: map[string]map[string]int64{
 			"quick": {"final_valid_converged": 1200, "final_invalid_error_seen": 600, "identical_windows_judged": 500, "syncs_passed": 1800,
 				"release_checked": 3500, "hook_reads": 20000, "gates_held": 1500, "probe_selftest_ok": 300, "admissible_view_judged": 300, "fd_audits_ok": 3500,
-				"queue_overflow_confirmed": 1},
+				"queue_overflow_confirmed": 1, "keep_mtime_same_length_rewrites": 800},
 			"thorough": {"final_valid_converged": 20000, "final_invalid_error_seen": 10000, "identical_windows_judged": 9000, "syncs_passed": 30000,
 				"release_checked": 60000, "hook_reads": 300000, "gates_held": 25000, "probe_selftest_ok": 5000, "admissible_view_judged": 5000, "fd_audits_ok": 60000,
-				"queue_overflow_confirmed": 3},
+				"queue_overflow_confirmed": 3, "keep_mtime_same_length_rewrites": 15000},
 		},
 		Plan: func(tier string) fw.Plan {
 			if tier == "thorough" {
@@ -800,6 +800,15 @@ func (r *c17Run) execute() {
 		switch op.Kind {
 		case "inplace":
 			oerr = fs.inplace(b, op.Chunks, op.ChunkPausesUs)
+		case "inplace-keep-mtime":
+			oerr = fs.inplaceKeepMtime(b, op.Trunc, op.FixedMtime)
+			if oerr == nil {
+				if len(b) == len(h.Contents[cur].Bytes) {
+					w.Count("keep_mtime_same_length_rewrites", 1)
+				} else {
+					w.Count("keep_mtime_length_differs", 1)
+				}
+			}
 		case "rename-over":
 			oerr = fs.renameOver(b)
 		case "delete-recreate":
